@@ -302,6 +302,14 @@ class World(object):
             return None
         return c
 
+    def api_conn(self, a):
+        c = self.cur.get(a)
+        if c is None:
+            return None
+        if c.lost and not self.cfg.get("use_lost"):
+            return None
+        return c
+
     def track(self, req, d):
         w = self
 
@@ -407,28 +415,28 @@ class World(object):
         self.ev(conn, "handlers", mask=mask)
 
     def op_window(self, a, n):
-        conn = self.live(a)
+        conn = self.api_conn(a)
         if conn is None:
             self.skipped += 1
             return
         self.api(conn, "setWindowSize", (n,), lambda r: conn.proto.setWindowSize(n))
 
     def op_timeout(self, a, t):
-        conn = self.live(a)
+        conn = self.api_conn(a)
         if conn is None:
             self.skipped += 1
             return
         self.api(conn, "setTimeout", (t,), lambda r: conn.proto.setTimeout(t))
 
     def op_bandwidth(self, a, bw, f):
-        conn = self.live(a)
+        conn = self.api_conn(a)
         if conn is None:
             self.skipped += 1
             return
         self.api(conn, "setBandwith", (bw, f), lambda r: conn.proto.setBandwith(bw, f))
 
     def op_connect(self, a, keepalive, clean, extra=0):
-        conn = self.live(a)
+        conn = self.api_conn(a)
         if conn is None:
             self.skipped += 1
             return
@@ -455,7 +463,7 @@ class World(object):
         return req
 
     def op_publish(self, a, qos, size=0, retain=0, topic=0, as_str=0):
-        conn = self.live(a)
+        conn = self.api_conn(a)
         if conn is None:
             self.skipped += 1
             return
@@ -475,7 +483,7 @@ class World(object):
         return req
 
     def op_subscribe(self, a, shape, n=1, qosbits=0):
-        conn = self.live(a)
+        conn = self.api_conn(a)
         if conn is None:
             self.skipped += 1
             return
@@ -495,7 +503,7 @@ class World(object):
         self.api(conn, "subscribe", args, fn)
 
     def op_unsubscribe(self, a, shape, n=1, variant=0):
-        conn = self.live(a)
+        conn = self.api_conn(a)
         if conn is None:
             self.skipped += 1
             return
@@ -512,11 +520,33 @@ class World(object):
         self.api(conn, "unsubscribe", args, fn)
 
     def op_disconnect(self, a):
-        conn = self.live(a)
+        conn = self.api_conn(a)
         if conn is None:
             self.skipped += 1
             return
         self.api(conn, "disconnect", (), lambda r: conn.proto.disconnect())
+
+    def op_call(self, a, name, args=(), kwargs=None, expect=None):
+        """C20: call an API entry point with arbitrary arguments; `expect` is the table's verdict"""
+        conn = self.api_conn(a)
+        if conn is None:
+            self.skipped += 1
+            return
+        args = [from_spec(x) for x in args]
+        kwargs = dict((k, from_spec(v)) for k, v in (kwargs or {}).items())
+        fn = getattr(conn.proto, name)
+        req = self.api(conn, name, dict(args=spec_brief(args), kwargs=spec_brief(kwargs), call=True), lambda r: fn(*args, **kwargs))
+        req.expect = expect
+        req.call = True
+        if name == "connect" and req.ret == "deferred" and not req.fires and conn.phase in ("new",) and conn.closed is None:
+            self.set_phase(conn, "connecting")
+            v = kwargs.get("version", boot.v311)
+            conn.version = v.get("level", 4) if isinstance(v, dict) else 4
+            conn.clean = bool(kwargs.get("cleanStart", True))
+            conn.keepalive = kwargs.get("keepalive", 0)
+            conn.connect_rid = req.rid
+            conn.t_connect = self.now()
+            req.valid, req.fresh = True, True
 
     # --- broker -> client
     def can_rx(self, conn):
@@ -550,11 +580,13 @@ class World(object):
             self.pop()
 
     def _unknown_id(self, x):
-        i = (max(self.ids_seen) if self.ids_seen else 0) + 1000 + (x % 50)
-        i = (i - 1) % 65535 + 1
+        """an id the client has never issued (independent of how far its counter has got)"""
+        i = 30000 + (x % 50)
         fid = getattr(self.factory, "id", 0)
-        while i in self.ids_seen or abs(i - fid) < 200:
-            i = i % 65535 + 1
+        fid = fid if isinstance(fid, int) else 0
+        while i in self.ids_seen or abs(i - fid) < 300:
+            i = i % 65535 + 1 + 997
+            i = (i - 1) % 65535 + 1
         return i
 
     def _sel(self, cands, sel, x, last, allow_dup=True):
@@ -959,6 +991,52 @@ class World(object):
                 pass
         LOGTAP.sink = None
         REACTOR.sink = None
+
+
+def from_spec(x):
+    """argument values in op lists are JSON-able specs: ["str", unit, nbytes] builds a long string,
+    ["ba", hex] a bytearray, ["bytes", hex], ["tuple", [...]], ["set", [...]], ["v31"], ["v311"], ["float", x]"""
+    if isinstance(x, (list, tuple)) and x and isinstance(x[0], str) and x[0].startswith("@"):
+        t = x[0]
+        if t == "@str":
+            from .codec import fill
+            return fill(x[1], x[2])
+        if t == "@ba":
+            return bytearray(bytes.fromhex(x[1]))
+        if t == "@bytes":
+            return bytes.fromhex(x[1])
+        if t == "@tuple":
+            return tuple(from_spec(v) for v in x[1])
+        if t == "@list":
+            return [from_spec(v) for v in x[1]]
+        if t == "@set":
+            return set(from_spec(v) for v in x[1])
+        if t == "@dict":
+            return dict((k, from_spec(v)) for k, v in x[1])
+        if t == "@v31":
+            return boot.v31
+        if t == "@v311":
+            return boot.v311
+        if t == "@float":
+            return float(x[1])
+        if t == "@none":
+            return None
+        raise ValueError(t)
+    return x
+
+
+def spec_brief(v):
+    if isinstance(v, dict):
+        return dict((k, spec_brief(x)) for k, x in v.items())
+    if isinstance(v, (list, tuple)):
+        return [spec_brief(x) for x in v]
+    if isinstance(v, str) and len(v) > 40:
+        return "%s..(%d chars, %d bytes)" % (v[:12], len(v), len(v.encode("utf-8")))
+    if isinstance(v, (bytes, bytearray)) and len(v) > 40:
+        return "%s(%d bytes)" % (type(v).__name__, len(v))
+    if isinstance(v, (set, frozenset)):
+        return sorted(repr(x) for x in v)
+    return v
 
 
 def _short(v):
